@@ -789,6 +789,8 @@ def adapt_typehints(
         if typehint is float and isinstance(val, int) and not isinstance(val, bool):
             with suppress(OverflowError):  # too large for float, fails the check below
                 val = float(val)
+        if typehint is float and isinstance(val, str) and val in {"Infinity", "-Infinity", "NaN"}:
+            val = float(val)  # what the json dumps write for non-finite floats
         if not isinstance(val, typehint) or (typehint in (int, float) and isinstance(val, bool)):
             raise_unexpected_value(f"Expected a {typehint}", val)
 
